@@ -18,8 +18,9 @@ def check(ctx):
     def oracle(c):
         res, cases = coord_common.multi_source_oracle(c, c.q(8, 60), c.q(4, 20), kinds=('plain', 'plain', 'gz', 'xz', 'bz2'),
                                                       sigprefix='schedule')
-        state['cases'] = cases
-        return res
+        res2, cases2 = coord_common.stall_oracle(c, c.q(2, 12), sigprefix='schedule')
+        state['cases'] = cases + cases2
+        return core.merge_oracles([res, res2])
 
     def extra(c):
         return [coord_common.trace_correspondence(c, state.get('cases', []))]
